@@ -245,7 +245,9 @@ class Replay:
                         h["a"], sorted(got_p), sorted(want_p)), i)
 
     def run(self):
-        fx = fixture.Fixture(self.bins, [dict(t) for t in TARGETS], max_retained_runs=self.nslots)
+        # every other behaviour names the lock host instead of giving its address (a name has to be resolved first)
+        fx = fixture.Fixture(self.bins, [dict(t) for t in TARGETS], max_retained_runs=self.nslots,
+                             lock_host="localhost" if self.idx % 2 else None)
         try:
             for t in "abc":
                 with open(os.path.join(fx.repo, t, "f"), "w") as f:
